@@ -173,5 +173,20 @@ let () = Reg.register "c16.run" (fun inp out ->
       | _ -> "bad:generated-parser-failed") in
   (m, verdict))
 
-(* a grammar inside the generator's (legal) fragment that textmapper fails to compile / generate / build *)
-let () = Reg.register "c16.gen" (fun _ _ -> (A "compiles", "bad:legal-action-grammar-rejected"))
+(* a grammar inside the generator's (legal) fragment that textmapper fails to compile / generate / build.
+   One situation is understood and has its own verdict (known finding joined-action-env): the error is
+   `invalid reference "x". Cannot find symbol "x" in rule` AND the generator found an expansion in which a code
+   block referring to a name is joined with a later block of a parenthesised alternative that does not see it. *)
+let contains s sub =
+  let n = String.length s and m = String.length sub in
+  let rec go i = i + m <= n && (String.sub s i m = sub || go (i + 1)) in go 0
+
+let () = Reg.register "c16.gen" (fun inp _ ->
+  let verdict = (match lst inp with
+    | [A "joined"; _; _; msg] ->
+      let text = String.concat "" (SL.map (fun c -> String.make 1 (Char.chr (get_int c))) (lst msg)) in
+      if contains text "invalid reference" && contains text "Cannot find symbol"
+      then "bad:joined-action-loses-names-of-first-block"
+      else "bad:legal-action-grammar-rejected"
+    | _ -> "bad:legal-action-grammar-rejected") in
+  (A "compiles", verdict))
